@@ -263,4 +263,21 @@ CHECKS = {
         level_note="States with a goroutine parked on the client's mutex behind a receive loop blocked on a full channel are only reached in the real-time stage (a mutex wait is not durably blocking under synctest).",
         assumptions=["script events never coincide with a try deadline (advances are multiples of 10 ms + 1 ns)", "all calls of one script share the client's try count"],
     ),
+    "C13": dict(
+        title="Lease acquisition follows the DHCP exchange rules for every server behaviour",
+        stages=[dict(name="xchg", shards=S16, timeout={"quick": 900, "thorough": 5400})],
+        rule="scripted servers (0..3) as reaction tables over the client's own messages, played in virtual time behind the real nclient4 / nclient6: to DISCOVER -> {OFFER, duplicate OFFER, wrong-xid OFFER, wrong-hardware-address "
+             "OFFER, OFFER with BOOTREQUEST opcode, ACK/NAK instead of OFFER, undecodable, silence}; to REQUEST / renewal REQUEST -> {ACK, NAK, ACK or NAK bearing another server id, ACK without server id, OFFER again, "
+             "wrong-xid ACK, undecodable, silence}, each with a delay from {0,1,30,99,101,150,250} ms, ACK address possibly different from the offered one, broadcast flag on/off; DHCPv6: to SOLICIT -> {ADVERTISE, wrong-xid "
+             "ADVERTISE, REPLY, wrong-xid REPLY, undecodable, ADVERTISE without server id, relay-typed, silence}, to REQUEST -> {REPLY, wrong-xid REPLY, ADVERTISE with the REQUEST's xid, undecodable, silence}, Solicit+Request and "
+             "RapidSolicit. ALL tables with <= 2 servers and one reaction per phase are enumerated; the rest is seeded. Shape = outcome class + reaction table; non-trivial iff at least one server reacts.",
+        technique="virtual-time execution of the real clients against scripted servers; every client transmission is decoded by the independent reference decoders and the result (Lease / ErrNak / message / error) is classified against the exchange rules using unique nonces",
+        level_text="DHCPv4: every transmission carries the client's hardware address; the REQUEST carries the selected offer's yiaddr as option 50, its server id as option 54 and its xid; the exchange is completed only by the first "
+                   "ACK/NAK of that transaction bearing that server id delivered while the call waited (ACK => Lease{that Offer, that ACK}; NAK => ErrNak with that NAK; anything else ignored); renewal REQUEST: ciaddr = leased "
+                   "address, broadcast flag clear, no option 50/54, same completion rule; exactly one RELEASE for the leased address sent to the lease's server id, port 67. DHCPv6: ADVERTISE/REPLY paired by xid, REQUEST carries "
+                   "the advertised client id, server id and IA_NA (tree-equal), a rapid-commit REPLY is accepted directly.",
+        level_note="Offers lacking a server identifier are outside the statement and exercised for crash/termination only. 'First delivered' is only demanded when a single transmission (one try) is involved, so that datagrams arriving between two tries cannot cause false alarms.",
+        assumptions=["server datagrams are hand-built from field values (v6) / built with the library encoder from harness-chosen fields (v4)"],
+        exhaustive_note="all reaction tables with <= 2 servers and one reaction per phase (v4), all one/two-reaction SOLICIT tables (v6)",
+    ),
 }
